@@ -662,6 +662,182 @@ impl TabletsInfo {
     }
 }
 
+/// Direct-driving wrapper over the crate-private tablet map: every operation
+/// delegates to the real `RawTablet` / `Tablet` / `TabletsInfo` code.
+#[cfg(scylla_verif)]
+#[allow(unreachable_pub, missing_docs)]
+pub(crate) mod verif_api {
+    use super::{RawTablet, Tablet, TabletsInfo};
+    use crate::cluster::metadata::{Keyspace, Strategy, Table};
+    use crate::cluster::metadata::PeerEndpoint;
+    use crate::cluster::node::{Node, NodeAddr};
+    use crate::frame::response::result::TableSpec;
+    use crate::routing::{Shard, Token};
+    use bytes::Bytes;
+    use std::collections::{HashMap, HashSet};
+    use std::net::SocketAddr;
+    use std::sync::Arc;
+    use uuid::Uuid;
+
+    /// One tablet as stored: inclusive range, resolved replicas (with the
+    /// address of the `Node` object they point to) and unresolved raw replicas.
+    #[derive(Debug, Clone, PartialEq, Eq)]
+    pub struct VerifTablet {
+        pub first_token: i64,
+        pub last_token: i64,
+        pub replicas: Vec<(Uuid, Shard, usize)>,
+        pub failed: Option<Vec<(Uuid, Shard)>>,
+    }
+
+    pub struct VerifTablets {
+        info: TabletsInfo,
+    }
+
+    impl Default for VerifTablets {
+        fn default() -> Self {
+            Self::new()
+        }
+    }
+
+    fn view(list: &[(Arc<Node>, Shard)]) -> Vec<(Uuid, Shard, usize)> {
+        list.iter()
+            .map(|(n, s)| (n.host_id, *s, Arc::as_ptr(n) as usize))
+            .collect()
+    }
+
+    impl VerifTablets {
+        pub fn new() -> Self {
+            Self {
+                info: TabletsInfo::new(),
+            }
+        }
+
+        /// A pool-less `Node` object, as the tablet code only needs identity,
+        /// host id and datacenter.
+        pub fn make_node(host_id: Uuid, datacenter: Option<String>) -> Arc<Node> {
+            Arc::new(Node::new_disabled(PeerEndpoint {
+                host_id,
+                address: NodeAddr::Translatable(SocketAddr::from(([127, 0, 0, 1], 9042))),
+                datacenter,
+                rack: None,
+            }))
+        }
+
+        /// Feeds a `tablets-routing-v1` custom payload (raw bytes, as received
+        /// from a node) through payload parsing, replica resolution and insertion.
+        /// Returns `false` if the payload was rejected.
+        pub fn add_from_payload(
+            &mut self,
+            ks: &str,
+            table: &str,
+            payload: Vec<u8>,
+            known_nodes: &HashMap<Uuid, Arc<Node>>,
+        ) -> bool {
+            let mut map = HashMap::new();
+            map.insert("tablets-routing-v1".to_owned(), Bytes::from(payload));
+            let raw = match RawTablet::from_custom_payload(&map) {
+                Some(Ok(raw)) => raw,
+                _ => return false,
+            };
+            let translator = |id: Uuid| known_nodes.get(&id).cloned();
+            let tablet = match Tablet::from_raw_tablet(raw, translator) {
+                Ok(t) => t,
+                Err((t, _)) => t,
+            };
+            self.info.add_tablet(
+                TableSpec::owned(ks.to_owned(), table.to_owned()),
+                tablet,
+            );
+            true
+        }
+
+        /// Runs topology maintenance. `tables` lists the (keyspace, table,
+        /// tablet_based) triples of the fetched schema.
+        pub fn perform_maintenance(
+            &mut self,
+            tables: &[(String, String, bool)],
+            removed_nodes: &HashSet<Uuid>,
+            all_current_nodes: &HashMap<Uuid, Arc<Node>>,
+            recreated_nodes: &HashMap<Uuid, Arc<Node>>,
+        ) {
+            let mut keyspaces: HashMap<String, Keyspace> = HashMap::new();
+            for (ks, table, tablet_based) in tables {
+                let entry = keyspaces.entry(ks.clone()).or_insert_with(|| Keyspace {
+                    strategy: Strategy::LocalStrategy,
+                    durable_writes: true,
+                    tablet_based: *tablet_based,
+                    tables: HashMap::new(),
+                    views: HashMap::new(),
+                    user_defined_types: HashMap::new(),
+                });
+                entry.tables.insert(
+                    table.clone(),
+                    Table {
+                        columns: HashMap::new(),
+                        partition_key: Vec::new(),
+                        clustering_key: Vec::new(),
+                        partitioner: None,
+                        pk_column_specs: Vec::new(),
+                    },
+                );
+            }
+            self.info.perform_maintenance(
+                &keyspaces,
+                removed_nodes,
+                all_current_nodes,
+                recreated_nodes,
+            );
+        }
+
+        pub fn has_table(&self, ks: &str, table: &str) -> bool {
+            self.info
+                .tablets_for_table(&TableSpec::borrowed(ks, table))
+                .is_some()
+        }
+
+        pub fn tablet_list(&self, ks: &str, table: &str) -> Option<Vec<VerifTablet>> {
+            let t = self.info.tablets_for_table(&TableSpec::borrowed(ks, table))?;
+            Some(
+                t.tablet_list
+                    .iter()
+                    .map(|tablet| VerifTablet {
+                        first_token: tablet.first_token.value(),
+                        last_token: tablet.last_token.value(),
+                        replicas: view(&tablet.replicas.all),
+                        failed: tablet.failed.as_ref().map(|f| f.replicas.clone()),
+                    })
+                    .collect(),
+            )
+        }
+
+        /// `None`: table unknown or no tablet covers the token.
+        pub fn replicas_for_token(
+            &self,
+            ks: &str,
+            table: &str,
+            token: i64,
+        ) -> Option<Vec<(Uuid, Shard, usize)>> {
+            self.info
+                .tablets_for_table(&TableSpec::borrowed(ks, table))?
+                .replicas_for_token(Token::new(token))
+                .map(view)
+        }
+
+        pub fn dc_replicas_for_token(
+            &self,
+            ks: &str,
+            table: &str,
+            token: i64,
+            dc: &str,
+        ) -> Option<Vec<(Uuid, Shard, usize)>> {
+            self.info
+                .tablets_for_table(&TableSpec::borrowed(ks, table))?
+                .dc_replicas_for_token(Token::new(token), dc)
+                .map(view)
+        }
+    }
+}
+
 #[cfg(test)]
 mod tests {
     use std::collections::{HashMap, HashSet};
